@@ -282,6 +282,114 @@ def gen_op(rng):
 QNAME_ATTRS = {NS1 + "\x01org"}
 
 
+OPAQ_NS = ["urn:verif:o1", "urn:verif:o2", "urn:ietf:params:xml:ns:netconf:base:1.0", "urn:verif:o3?x=1&y=2"]
+OPAQ_PFX = ["p", "q", "nc", "p"]
+
+
+def gen_opaq(rng):
+    """XML of elements in namespaces no module of the context has (opaque nodes under LYD_PARSE_OPAQ), nested up to five deep,
+    with attributes in namespaces; few prefixes for several namespaces, so that inner elements re-bind prefixes the outer ones
+    use, the same namespace appears under two prefixes, and default namespaces change on the way down"""
+    def elem(depth, scope, dflt):
+        # scope: prefix -> namespace in scope; dflt: default namespace in scope
+        name = rng.choice(["config", "server", "port", "x", "y"])
+        decl, scope = {}, dict(scope)
+        ns = rng.choice(OPAQ_NS[:3])
+        use_pfx = rng.random() < 0.3
+        o = b"<"
+        used = set()            # prefixes this element already relies on: they cannot be bound to something else here
+        if use_pfx:
+            pf = rng.choice(OPAQ_PFX)
+            if scope.get(pf) != ns:
+                decl[pf] = ns; scope[pf] = ns
+            used.add(pf)
+            tag = (pf + ":" + name).encode()
+        else:
+            tag = name.encode()
+            if dflt != ns:
+                decl[None] = ns; dflt = ns
+        attrs = []
+        for _ in range(rng.choice([0, 1, 1, 2, 3])):
+            ans = rng.choice(OPAQ_NS)
+            an = rng.choice(["operation", "tag", "a", "b"])
+            if rng.random() < 0.15:
+                key, q = (None, an), an                 # attribute in no namespace
+            else:
+                cands = [pf for pf, u in scope.items() if u == ans]
+                if cands and rng.random() < 0.6:
+                    pf = rng.choice(cands)
+                else:
+                    pf = rng.choice(OPAQ_PFX + ["xc"])
+                    if scope.get(pf) != ans:
+                        if pf in decl or pf in used:
+                            continue                  # one element cannot bind a prefix twice
+                        decl[pf] = ans; scope[pf] = ans
+                used.add(pf)
+                key, q = (ans, an), pf + ":" + an
+            if key in [k for k, _, _ in attrs]:
+                continue
+            val = rng.choice([b"delete", b"v", b"", b"a b", b"<&>\"'"])
+            if rng.random() < 0.3 and scope:
+                # a value that reads as a QName: the binding of its prefix is part of what the attribute says
+                vp = rng.choice(sorted(scope))
+                used.add(vp)
+                val = (vp + ":" + rng.choice(["x", "merge"])).encode()
+            attrs.append((key, q, val))
+        o += tag
+        for pf, u in decl.items():
+            o += b" xmlns" + (b":" + pf.encode() if pf else b"") + b'="' + xesc(u.encode(), True) + b'"'
+        for _, q, v in attrs:
+            o += b" " + q.encode() + b'="' + xesc(v, True) + b'"'
+        if depth < 4 and rng.random() < 0.75:
+            kids = b"".join(elem(depth + 1, scope, dflt) for _ in range(rng.choice([1, 1, 2])))
+            return o + b">" + kids + b"</" + tag + b">"
+        tx = rng.choice([b"", b"t", b"a&b"])
+        return o + (b"/>" if not tx else b">" + xesc(tx) + b"</" + tag + b">")
+    return b"".join(elem(0, {}, None) for _ in range(rng.choice([1, 1, 2])))
+
+
+def run_opaq(cx):
+    """what an XML document of opaque nodes says to a namespace-aware reader (expanded element names, expanded attribute names,
+    attribute values, character data) must be what libyang's output of the parsed tree says - also when printed a second time"""
+    rng = cx.sub_rng("opaq")
+    n = cx.n(600, 8000)
+    cx.rule("opaq: %d XML documents of opaque nodes (unknown namespaces, attributes in namespaces, prefixes re-bound and shared on the way "
+            "down) parsed with LYD_PARSE_OPAQ and printed: expat's reading of the output = expat's reading of the input" % n)
+    searchdir = paths.REPO + "/tests/modules/yang"
+    lines = ["0 rt ctx %s %s %s %s" % (hexs(searchdir), hexs(YANG1), hexs(YANG2), hexs(YANG3))]
+    docs = {}
+    for i in range(n):
+        d = gen_opaq(rng)
+        docs[len(lines)] = d
+        lines.append("%d rt opaq %s" % (len(lines), hexs(d)))
+    head, body = lines[0], lines[1:]
+    chunked = []
+    for i in range(0, len(body), 400):
+        chunked.append(head if i == 0 else "c%d rt ctx %s" % (i, head.split(" ", 3)[3]))
+        chunked += body[i:i + 400]
+    ri = rtcomp.run_batched(cx, chunked, "rtx", per_batch=1)
+    for i, d in docs.items():
+        r = ri.get(str(i), ["err", "NoReply"])
+        want = rtcomp.expat_structure(d, "auto")
+        depth = max(x[0] for x in want) if want else 0
+        cx.count(("opaq", d), True, "rtx:opaq:%s:depth%d" % (r[0] if r[0] == "ok" else " ".join(r[:2]), depth))
+        if want is None:
+            cx.fail("rtx", "generator: opaque document is not well-formed", {"xml": d.decode("utf-8", "replace")})
+            continue
+        if r[0] != "ok":
+            cx.fail("rtx", "well-formed XML of unknown namespaces refused under LYD_PARSE_OPAQ", {"xml": d.decode("utf-8", "replace"), "reply": r[:2]})
+            continue
+        ws = [(dd, ns, ln, tx.strip() if True else tx, tuple(sorted(at.items()))) for dd, ns, ln, tx, at in want]
+        for name, out in (("formatted", unhex(r[1])), ("shrunk", unhex(r[2])), ("printed again after re-parsing", unhex(r[3]))):
+            got = rtcomp.expat_structure(out, "auto")
+            gs = None if got is None else [(dd, ns, ln, tx.strip(), tuple(sorted(at.items()))) for dd, ns, ln, tx, at in got]
+            if gs != ws:
+                cx.fail("rtx", "XML output of opaque nodes (%s) read by a namespace-aware parser differs from the input (expanded element / attribute names, values or text)" % name,
+                        {"xml": d.decode("utf-8", "replace"), "xml_out": out.decode("utf-8", "replace")[:3000],
+                         "first_diff": rtcomp.first_diff(gs, ws) if gs is not None else "not well-formed"})
+                break
+
+
 def xml_struct(doc):
     st = rtcomp.expat_structure(doc, QNAME_ATTRS)
     if st is None:
